@@ -3,7 +3,7 @@ rules (shared mutable state, optional-zero parameters, codec pass-through)."""
 import ast
 import itertools
 
-from .core import (AnalysisError, dotted, norm, walk_local, const_int,
+from .core import (ftext, closure_text, helper_closure, AnalysisError, dotted, norm, walk_local, const_int,
                    enclosing_stmt_map, stmts_of, block_always_raises,
                    calls_in, call_name, kwarg, PKG)
 from .dataflow import (local_defs, names_in, closure_names, holds,
@@ -61,7 +61,7 @@ def _alt_ops(repo, module, class_name):
         for c in repo.mro(ci):
             for mname in MUTATORS[base]:
                 f = c.methods.get(mname)
-                if f is not None and "super()" not in norm(f.node):
+                if f is not None and "super()" not in ftext(f):
                     detached = True
         if not detached:
             table = dict(BUILTIN_TABLES[base])
@@ -131,21 +131,34 @@ def protocol_conformance(repo, col):
     m = repo.module("sharded_file_accessor")
     init = repo.func("sharded_file_accessor", "MiniShard.__init__")
     pairs = {}
+    cand = {}
     for st in stmts_of(init.node):
         if isinstance(st, (ast.Assign, ast.AnnAssign)):
             tgt = st.targets[0] if isinstance(st, ast.Assign) else st.target
-            if isinstance(tgt, ast.Attribute) and isinstance(tgt.value, ast.Name) \
-                    and tgt.value.id == "self" and isinstance(st.value, ast.IfExp):
-                alts = []
-                for arm in (st.value.body, st.value.orelse):
-                    if isinstance(arm, ast.Call) and call_name(arm):
-                        alts.append((call_name(arm), arm))
-                if len(alts) == 2:
-                    pairs[tgt.attr] = alts
+            if not (isinstance(tgt, ast.Attribute) and
+                    isinstance(tgt.value, ast.Name) and tgt.value.id == "self"
+                    and st.value is not None):
+                continue
+            arms = (st.value.body, st.value.orelse) \
+                if isinstance(st.value, ast.IfExp) else (st.value,)
+            for arm in arms:
+                if isinstance(arm, ast.Call) and call_name(arm):
+                    lst = cand.setdefault(tgt.attr, [])
+                    if call_name(arm) not in [x[0] for x in lst]:
+                        lst.append((call_name(arm), arm))
+    for attr, alts in cand.items():
+        # an attribute bound to one of two implementations (conditional
+        # expression or if/else arms)
+        if len(alts) == 2 and all(
+                nm == "dict" or repo.find_class(m, nm) is not None
+                for nm, _ in alts):
+            pairs[attr] = alts
     if len(pairs) < 2:
-        raise AnalysisError("anchor vanished: MiniShard.__init__ no longer "
-                            "chooses between two buffer implementations "
-                            "(found %s)" % sorted(pairs))
+        col.add(rule + ".class", init, "two buffer implementations", True,
+                "MiniShard.__init__ does not choose between two buffer "
+                "implementations in a recognised form (found %s)"
+                % sorted(pairs), undecided=True)
+        return
     for attr, alts in sorted(pairs.items()):
         ops = _ops_on_attr(m, attr)
         for cname, ctor in alts:
@@ -461,21 +474,34 @@ def read_config_independence(repo, col):
     # probing covers every pattern __init__ can select and both suffixes
     fn = repo.func("file_accessor", "FileAccessor.fetch_chunk")
     probed = set()
-    for st in stmts_of(fn.node):
-        if isinstance(st, ast.For) and isinstance(st.iter, (ast.Tuple, ast.List)):
-            probed |= {norm(e) for e in st.iter.elts}
+    unresolved = False
+    for h in helper_closure(fn):
+        for st in stmts_of(h.node):
+            if not isinstance(st, ast.For):
+                continue
+            it = st.iter
+            if isinstance(it, ast.Name) and it.id in h.module.constants:
+                it = h.module.constants[it.id]
+            if isinstance(it, (ast.Tuple, ast.List)):
+                probed |= {norm(e) for e in it.elts}
+            else:
+                unresolved = True
     ok = pattern_values <= probed
     col.add(rule, fn, "probed patterns %s" % sorted(probed), ok,
             "" if ok else "fetch_chunk probes %s but chunks may be stored "
-            "under %s" % (sorted(probed), sorted(pattern_values)))
+            "under %s" % (sorted(probed), sorted(pattern_values)),
+            undecided=not ok and unresolved)
     for mname in ("fetch_file", "fetch_chunk", "file_exists"):
         fn = repo.func("file_accessor", "FileAccessor." + mname)
-        txt = norm(fn.node)
+        txt = closure_text(fn)
         plain = ".is_file()" in txt
-        gz = "'.gz'" in txt or '".gz"' in txt
-        col.add(rule, fn, "probes name and name + '.gz'", plain and gz,
+        gz = "+ '.gz'" in txt and "with_suffix('.gz')" not in txt
+        und = not gz and "'.gz'" in txt and "with_suffix('.gz')" not in txt
+        col.add(rule, fn, "probes name and name + '.gz'",
+                (plain and gz) or und,
                 "" if plain and gz else "%s no longer probes both the plain "
-                "and the .gz name" % mname)
+                "name and the name with '.gz' appended" % mname,
+                undecided=und)
 
 
 # ---------------------------------------------------------------------
@@ -486,6 +512,42 @@ DRIVER_FUNCS = [
     ("volume_reader", "volume_file_to_precomputed"),
     ("volume_reader", "volume_file_to_info"),
 ]
+
+
+def _sentinel_checked(helper, sentinel):
+    """True: every same-module caller binds the helper's result and, on the
+    sentinel, returns a non-zero constant or raises.  False: some caller
+    discards the result.  None: not resolvable."""
+    callers = []
+    for f in helper.module.functions.values():
+        if f is helper:
+            continue
+        for c in calls_in(f.node):
+            if call_name(c) == helper.qualname:
+                callers.append((f, c))
+    if not callers:
+        return None
+    res = True
+    for f, c in callers:
+        owner = enclosing_stmt_map(f.node).get(id(c))
+        if isinstance(owner, ast.Expr) and owner.value is c:
+            return False
+        if not (isinstance(owner, ast.Assign) and owner.value is c and
+                isinstance(owner.targets[0], ast.Name)):
+            res = None
+            continue
+        v = owner.targets[0].id
+        checked = False
+        for st in stmts_of(f.node):
+            if isinstance(st, ast.If) and v in names_in(st.test) and st.body:
+                last = st.body[-1]
+                if isinstance(last, ast.Raise) or (
+                        isinstance(last, ast.Return) and last.value is not None
+                        and (const_int(last.value) or 0) != 0):
+                    checked = True
+        if not checked:
+            res = None
+    return res
 
 
 def exit_status(repo, col):
@@ -527,6 +589,19 @@ def exit_status(repo, col):
                             and last.targets[0].id in names_in(r.value)
                             for r in stmts_of(fn.node)):
                     ok = True       # status variable returned later
+                if not ok and isinstance(last, ast.Return) and \
+                        fn.qualname.startswith("_") and fn.parent is None:
+                    # private helper reporting failure through a sentinel:
+                    # every caller must turn the sentinel into a failure
+                    verdict = _sentinel_checked(fn, last.value)
+                    if verdict is not False:
+                        col.add(rule + ".handler", fn, "except %s"
+                                % norm(h.type), True, "helper returns a "
+                                "sentinel that its caller turns into a "
+                                "non-zero status" if verdict else
+                                "helper returns a sentinel; callers not "
+                                "resolved", node=h, undecided=verdict is None)
+                        continue
                 col.add(rule + ".handler", fn, "except %s" % norm(h.type), ok,
                         "" if ok else "handler %s: the command continues and "
                         "can exit with a success status although the "
@@ -637,6 +712,13 @@ def iec_prefixes(repo, col):
         raise AnalysisError("anchor vanished: utils._IEC_PREFIXES")
     node = m.constants["_IEC_PREFIXES"]
     rows = []
+    if not isinstance(node, (ast.List, ast.Tuple)) or not all(
+            isinstance(e, ast.Tuple) and len(e.elts) == 2 and
+            isinstance(e.elts[1], ast.Constant) for e in node.elts):
+        col.add(rule, "utils:_IEC_PREFIXES", "prefix table", True,
+                "table is not a literal list of (factor, prefix) pairs",
+                undecided=True)
+        return
     for e in node.elts:
         f, p = e.elts
         val = None
@@ -919,14 +1001,12 @@ def io_pass_through(repo, col):
     # raw encoder: cast to the little-endian stored dtype dominates tobytes
     for cls in ("RawChunkEncoder", "CompressedSegmentationEncoder"):
         fn = repo.func("chunk_encoding", cls + ".encode")
+        from .core import nodes_passing, helper_closure
         cfg = fn.cfg()
-        owner = enclosing_stmt_map(fn.node)
-        casts = []
-        for c in calls_in(fn.node):
-            if isinstance(c.func, ast.Attribute) and c.func.attr == "astype" \
-                    and c.args and norm(c.args[0]) == "self.dtype":
-                st = owner.get(id(c))
-                casts.append(cfg.node_of(st))
+        casts = nodes_passing(
+            fn, lambda c: isinstance(c.func, ast.Attribute)
+            and c.func.attr == "astype" and c.args
+            and norm(c.args[0]) == "self.dtype")
         ok = bool(casts) and cfg.every_path_passes(cfg.entry, cfg.exit, casts)
         col.add(rule, fn, "astype(self.dtype) on every path", ok,
                 "" if ok else "some path serialises the chunk without "
@@ -934,7 +1014,7 @@ def io_pass_through(repo, col):
                 "(big-endian or differently typed input is written verbatim)")
         safe = all(kwarg(c, "casting") is not None and
                    kwarg(c, "casting").value in ("safe", "equiv", "no")
-                   for c in calls_in(fn.node)
+                   for h in helper_closure(fn) for c in calls_in(h.node)
                    if isinstance(c.func, ast.Attribute)
                    and c.func.attr == "astype")
         col.add(rule, fn, "astype(casting='safe')", safe,
@@ -946,7 +1026,7 @@ def minishard_encode_before_park(repo, col):
     """Every payload that reaches the shard (appended now or parked for
     later) is the data_encoder output."""
     rule = "E-ORDER.encode-before-store"
-    fn = repo.func("sharded_file_accessor", "MiniShard.store_cmc_chunk")
+    fn = repo.func("sharded_file_accessor", "MiniShard.store_cmc_chunk", inline=True)
     defs = local_defs(fn.node)
     params = [p for p in fn.params if p != "self"]
     raw = params[0]
@@ -1027,7 +1107,7 @@ def cast_before_write(repo, col, sites):
                               if isinstance(c.func, ast.Attribute)
                               and c.func.attr == "write_chunk"]
         if not calls:
-            if "write_chunk" not in norm(fn.node):
+            if "write_chunk" not in ftext(fn):
                 raise AnalysisError("anchor vanished: write_chunk in %s"
                                     % fn.key)
             col.add(rule, fn, "write_chunk", True, "write_chunk is not called "
@@ -1082,6 +1162,34 @@ def empty_minishard_guard(repo, col):
                     if gn is not None and sn is not None and \
                             gn.id in cfg.dominators()[sn.id]:
                         ok = True
+                # `m = self._read(...)`; `if m is None: continue` where the
+                # helper returns None for an empty byte range
+                base = s.value
+                while isinstance(base, ast.Attribute):
+                    base = base.value
+                if isinstance(base, ast.Name) and \
+                        t in ("%s is None" % base.id, "not %s" % base.id):
+                    from .core import resolve_local_call
+                    for d in defs.get(base.id, []):
+                        if not isinstance(d.value, ast.Call):
+                            continue
+                        h = resolve_local_call(fn, d.value)
+                        if h is None:
+                            continue
+                        for hs in stmts_of(h.node):
+                            if isinstance(hs, ast.If) and hs.body and \
+                                    isinstance(hs.body[-1], ast.Return) and (
+                                        hs.body[-1].value is None or norm(
+                                            hs.body[-1].value) == "None"):
+                                ht = norm(hs.test)
+                                if ("length" in ht or "len(" in ht or
+                                        "end" in ht) and (
+                                            "==" in ht or "not " in ht
+                                            or "< 1" in ht):
+                                    gn = cfg.node_of(st)
+                                    if gn is not None and sn is not None and \
+                                            gn.id in cfg.dominators()[sn.id]:
+                                        ok = True
         col.add(rule, fn, norm(s), ok, "empty (unused) minishards are skipped "
                 "before their first id is read" if ok else
                 "element 0 of a minishard index is read without checking that "
@@ -1132,7 +1240,7 @@ def convert_loop_flow(repo, col):
                 "convert -> encode path" % (recv, sorted(extra)),
                 undecided=bool(extra) and not bad)
     drv = repo.func("scripts.convert_chunks", "convert_chunks")
-    t = norm(drv.node)
+    t = ftext(drv)
     ok = "for scale_index in reversed(range(len(dest_info['scales'])))" in t or \
         "for scale_index in range(len(dest_info['scales']))" in t
     col.add(rule, drv, "every destination scale converted", ok, "" if ok else
@@ -1156,7 +1264,7 @@ def convert_loop_flow(repo, col):
 def downscaler_templates(repo, col):
     rule = "E-SPEC.downscale"
     mj = repo.func("downscaling", "MajorityDownscaler.downscale")
-    t = norm(mj.node)
+    t = ftext(mj)
     ok = "labels, counts = np.unique(block.flat, return_counts=True)" in t and \
         "labels[np.argmax(counts)]" in t
     col.add(rule, mj, "labels[argmax(counts)] of np.unique(block)", ok,
@@ -1186,7 +1294,7 @@ def downscaler_templates(repo, col):
                             "label, so a shortcut needs strictly more than "
                             "half" % txt, node=n)
     st = repo.func("downscaling", "StridingDownscaler.downscale")
-    t = norm(st.node)
+    t = ftext(st)
     oks = "chunk[:, ::downscaling_factors[2], ::downscaling_factors[1], " \
         "::downscaling_factors[0]]" in t
     col.add(rule, st, "chunk[:, ::Dz, ::Dy, ::Dx]", oks, "first voxel of each "
@@ -1195,18 +1303,22 @@ def downscaler_templates(repo, col):
     for cls in ("StridingDownscaler", "AveragingDownscaler",
                 "MajorityDownscaler"):
         fn = repo.func("downscaling", cls + ".downscale")
-        t = norm(fn.node)
-        okc = "if not self.check_factors(downscaling_factors): raise " \
-            "NotImplementedError" in t
+        t = ftext(fn)
+        from .core import helper_closure
+        okc = any("if not self.check_factors(" in ftext(h) and
+                  "raise NotImplementedError" in ftext(h)
+                  for h in helper_closure(fn))
         col.add(rule, fn, "unsupported factors raise", okc, "" if okc else
-                "%s no longer rejects unsupported factors" % cls)
+                "%s no longer rejects unsupported factors" % cls,
+                undecided=not okc and "check_factors" in
+                " ".join(ftext(h) for h in helper_closure(fn)))
     av = repo.func("downscaling", "AveragingDownscaler.check_factors")
-    oka = "all((f in (1, 2) for f in downscaling_factors))" in norm(av.node)
+    oka = "all((f in (1, 2) for f in downscaling_factors))" in ftext(av)
     col.add(rule, av, "averaging supports factors 1 and 2 only", oka,
             "" if oka else "averaging downscaler accepts factors it does not "
             "implement", undecided=not oka)
     ini = repo.func("downscaling", "AveragingDownscaler.__init__")
-    t = norm(ini.node)
+    t = ftext(ini)
     okp = "self.padding_mode = 'edge'" in t and \
         "self.padding_mode = 'constant'" in t and \
         "'constant_values': outside_value" in t
@@ -1214,7 +1326,7 @@ def downscaler_templates(repo, col):
             "value", okp, "" if okp else "border padding modes changed",
             undecided=not okp)
     gd = repo.func("downscaling", "get_downscaler")
-    t = norm(gd.node)
+    t = ftext(gd)
     okg = "if info['type'] == 'image': return get_downscaler('average'" in t \
         and "return get_downscaler('stride'" in t
     col.add(rule, gd, "auto = average for images, stride for segmentations",
